@@ -528,6 +528,8 @@ pub struct NoObserver;
 impl Observer for NoObserver {}
 
 pub struct Explored {
+    /// hasher call sequence and fingerprint of each visited *real* state (same order as `states`)
+    pub identities: Vec<(Vec<u8>, u64)>,
     pub states: Vec<RState>,
     pub transitions: u64,
     pub capped: bool,
@@ -559,7 +561,7 @@ where
     }
     if r0.net.len() > sys.hist.net_bound {
         // the initial state is outside the boundary: the bounded space is empty
-        return Ok(Explored { states: vec![], transitions: 0, capped: false });
+        return Ok(Explored { identities: vec![], states: vec![], transitions: 0, capped: false });
     }
     let mut seen: HashSet<RState> = HashSet::new();
     let mut order = vec![];
@@ -568,8 +570,10 @@ where
     queue.push_back((inits.into_iter().next().unwrap(), r0));
     let mut transitions = 0u64;
     let mut capped = false;
+    let mut identities = vec![];
     while let Some((real, r)) = queue.pop_front() {
         order.push(r.clone());
+        identities.push((crate::rechash::stream(&real), stateright::verif_hooks::fingerprint_of(&real)));
         // enabled actions as multisets
         let mut acts = Vec::new();
         model.actions(&real, &mut acts);
@@ -629,7 +633,7 @@ where
         }
         obs.state(&real_as_tactor_dummy(&real), &r);
     }
-    Ok(Explored { states: order, transitions, capped })
+    Ok(Explored { identities, states: order, transitions, capped })
 }
 
 // The observer only needs the network of the real state; pass a TActor-typed shell carrying it.
